@@ -555,9 +555,38 @@ func checkIPRestrictedHelper(c *km.Ctx, s *km.Sem, rule string) {
 			return v
 		}
 		addr := inFn(ci.Common().Args[1])
-		x, path, ok := km.FieldPath(addr)
-		good := ok && path == "RemoteAddr" && km.NamedTypeOf(x.Type()) == "net/http.Request"
-		c.R.Add(rule, km.FuncName(fn), "peer address given to VerifyIPRestrictedX509CertIP", posOf(c, ci), "the address checked against the netblocks is the TCP peer address r.RemoteAddr (never a client-supplied header)", km.ValStr(addr), good)
+		isPeer := func(v ssa.Value) bool {
+			x, path, ok := km.FieldPath(km.Unwrap(v))
+			return ok && path == "RemoteAddr" && km.NamedTypeOf(x.Type()) == "net/http.Request"
+		}
+		good := isPeer(addr)
+		found := km.ValStr(addr)
+		if p, isP := addr.(*ssa.Parameter); isP && p.Parent() == fn && !good {
+			// the address handed in by the callers of the IP-certificate function: every one of them passes the
+			// peer address of its request
+			idx := -1
+			for i, q := range fn.Params {
+				if q == p {
+					idx = i
+				}
+			}
+			callers := c.G.Callers[fn]
+			good = idx >= 0 && len(callers) > 0
+			found = "parameter " + p.Name() + ":"
+			for _, cs := range callers {
+				cc := cs.Instr.(ssa.CallInstruction).Common()
+				if cc.IsInvoke() || idx >= len(cc.Args) || km.StaticCallee(cc) != fn {
+					good = false
+					found += " (unresolved call in " + km.FuncName(cs.Caller) + ")"
+					continue
+				}
+				found += " " + km.ValStr(cc.Args[idx]) + " in " + km.FuncName(cs.Caller)
+				if !isPeer(cc.Args[idx]) {
+					good = false
+				}
+			}
+		}
+		c.R.Add(rule, km.FuncName(fn), "peer address given to VerifyIPRestrictedX509CertIP", posOf(c, ci), "the address checked against the netblocks is the TCP peer address r.RemoteAddr (never a client-supplied header)", clipS(found, 200), good)
 		// the certificate is the verified leaf
 		cert := inFn(ci.Common().Args[0])
 		okCert := isVerifiedLeaf(cert)
